@@ -1,6 +1,7 @@
 package oracle
 
 import (
+	"os"
 	"fmt"
 	"sort"
 	"time"
@@ -119,6 +120,23 @@ func (m *C11) After(w *world.World, a *world.Action, r *world.StepResult) *Viola
 				if tx.Action != nil && tx.Action.Kind == world.KRelay && tx.Action.Relay != nil && tx.Action.Relay.Op == "ack" && tx.Action.Relay.Dir == "p2c" && tx.OK() {
 					kind = "error-ack"
 				}
+			}
+			if os.Getenv("VERIF_DEBUG_STOP") != "" {
+				ks := ""
+				for _, tx := range r.Txs {
+					if tx.Action != nil {
+						ks += tx.Action.Kind
+						if tx.Action.Relay != nil {
+							ks += ":" + tx.Action.Relay.Op
+						}
+						if tx.OK() {
+							ks += "+ "
+						} else {
+							ks += "- "
+						}
+					}
+				}
+				w.Label("stopblock:" + kind + ":" + ks)
 			}
 			m.stopKinds[kind] = true
 			w.Label("stop:" + kind)
